@@ -353,10 +353,15 @@ class DiscreteSetFam(SeededFamily):
             ('SpecificFunctions', 'python defs', [_f_square, _f_cube, _f_two, abs]),
             ('SpecificFunctions', 'callable object', [_Callable(), _f_square]),
             ('SpecificFunctions', 'one-element list', [math.sin]),
+            # a single un-tupled array IS the one member of the set, whatever its shape
+            ('DiscreteSet', 'single vector', vec),
+            ('DiscreteSet', 'single vector of length 1', MA([4.0])),
+            ('DiscreteSet', 'single row matrix', MA([[1, 2, 3]])),
+            ('DiscreteSet', 'single complex vector', MA([1j, 2])),
         ]
 
     def cases(self, tier):
-        return iter(range(16))
+        return iter(range(20))
 
     def describe(self, case):
         if not hasattr(self, 'table'):
